@@ -2012,6 +2012,172 @@ example : (match (runHandler 200 .parseShowSeriesStatement).run (PState.init exS
     | .ok _ => true
     | .error _ => false) = true := by decide +kernel
 
+/-! ### SELECT: a first class of statements -/
+
+/-- `SELECT f, fs… FROM n, names… [WHERE c] [LIMIT l] [OFFSET o] [SLIMIT sl] [SOFFSET so]` as the parser builds it
+(no target, no GROUP BY, no fill, no ORDER BY, no time zone; a raw query since the fields contain no call). -/
+def simpleSelect (f : Field) (fs : List Field) (n : Str) (names : List Str) (c : Option Expr) (l o sl so : Int) :
+    SelectStmt :=
+  .mk (f :: fs) none [] ((n :: names).map nameSrc) c [] l o sl so true .null .none none [] false false [] false
+
+/-- The statements the theorem covers (decidable): fields are printable expressions (C03's class,
+`RT.rtOK false`) that contain none of the comparison / logical operators `parseField` rejects, with any
+(expressible) alias; sources are non-empty expressible names; the condition is printable; the four
+limits are in the parser's range. -/
+def SimpleSelect (f : Field) (fs : List Field) (n : Str) (names : List Str) (c : Option Expr) (l o sl so : Int) : Prop :=
+  (∀ g ∈ f :: fs, FieldOK g) ∧ (∀ m ∈ n :: names, Expressible m ∧ m ≠ []) ∧ CondOK c ∧
+  (0 ≤ l ∧ l ≤ maxInt64) ∧ (0 ≤ o ∧ o ≤ maxInt64) ∧ (0 ≤ sl ∧ sl ≤ maxInt64) ∧ (0 ≤ so ∧ so ≤ maxInt64)
+
+instance (f : Field) (fs : List Field) (n : Str) (names : List Str) (c : Option Expr) (l o sl so : Int) :
+    Decidable (SimpleSelect f fs n names c l o sl so) := by unfold SimpleSelect; exact inferInstance
+
+/-- What is printed after the keyword SELECT. -/
+def selectText (f : Field) (fs : List Field) (n : Str) (names : List Str) (c : Option Expr) (l o sl so : Int) : Str :=
+  ' ' :: (f.print ++ (moreFields fs ++ (fromText (n :: names) ++ (whereText c ++ (posText .LIMIT l ++
+    (posText .OFFSET o ++ (posText .SLIMIT sl ++ posText .SOFFSET so)))))))
+
+theorem select_print_partial (f : Field) (fs : List Field) (n : Str) (names : List Str) (c : Option Expr)
+    (l o sl so : Int) (h : ∀ m ∈ n :: names, m ≠ []) :
+    (Statement.select (simpleSelect f fs n names c l o sl so)).print = tx "SELECT" ++ selectText f fs n names c l o sl so := by
+  have p1 : (Statement.select (simpleSelect f fs n names c l o sl so)).print =
+      tx "SELECT " ++ joinWith (tx ", ") ((f :: fs).map Field.print) ++ [] ++
+        (tx " FROM " ++ printSources ((n :: names).map nameSrc)) ++ clauseWhere c ++ clauseGroupBy [] ++
+        printFill .null .none ++ clauseOrderBy [] ++ clausePos "LIMIT" l ++ clausePos "OFFSET" o ++
+        clausePos "SLIMIT" sl ++ clausePos "SOFFSET" so ++ [] := rfl
+  have e0 : clauseOrderBy [] = [] := rfl
+  have e1 : clauseGroupBy [] = [] := rfl
+  have e2 : printFill .null .none = [] := rfl
+  have e3 : tx "SELECT " = tx "SELECT" ++ [' '] := by decide +kernel
+  have e4 : tx " FROM " = ' ' :: (Token.FROM.str ++ [' ']) := by decide +kernel
+  rw [p1, joinFields, printSources_names n names h, clauseWhere_eq, (clausePos_eq l).1, (clausePos_eq o).2.1,
+    (clausePos_eq sl).2.2.1, (clausePos_eq so).2.2.2, e0, e1, e2, e3, e4]
+  simp only [selectText, fromText, List.append_assoc, List.append_nil, List.nil_append, List.cons_append]
+
+theorem hasCall_false (e : Expr) (h : RT.rtOK false e = true) : e.hasCall = false := by
+  fun_induction Expr.hasCall e with
+  | case1 n a => simp [RT.rtOK] at h
+  | case2 op l r ihl ihr =>
+    obtain ⟨_, h3, h4, _, _⟩ := RT.rtOK_binary h
+    rw [ihl h3, Bool.false_or]
+    split at h4
+    · obtain ⟨src, rfl, _⟩ := RT.regexLitB_elim h4
+      rfl
+    · exact ihr h4
+  | case3 e ih => rw [RT.rtOK] at h; exact ih h
+  | case4 e h1 h2 h3 => rfl
+
+/-- The tokens that continue a SELECT statement of this class. -/
+def selectStop : List Token :=
+  [.AS, .COMMA, .INTO, .FROM, .WHERE, .GROUP, .IDENT, .ORDER, .LIMIT, .OFFSET, .SLIMIT, .SOFFSET]
+
+/-- **Print → parse, SELECT** (first class). `parseSelectStatement` on the text printed after the
+keyword `SELECT`, followed by `k`, returns exactly the statement and stands before `k` — or the
+fuel was too small.
+
+Partial — the class `SimpleSelect`: fields are `Printable` expressions without a call (hence a
+raw query), wildcard, number or duration literal, each with an optional alias; sources are plain
+measurement names; optional WHERE (printable condition), LIMIT, OFFSET, SLIMIT, SOFFSET. Not
+covered (all producible by the parser): INTO, subqueries, regex / qualified sources, GROUP BY, fill(),
+ORDER BY, TZ(), calls and the negated-operand trees of the open finding. The continuation `k` starts
+(after at most one blank) with a token that is no operator, no identifier and no keyword that
+continues the statement (`selectStop`); the end of the input and `)` qualify. -/
+theorem select_print_parse_partial (fuel : Nat) (s : PState) (f : Field) (fs : List Field) (n : Str) (names : List Str)
+    (c : Option Expr) (l o sl so : Int) (k : Str) (hok : SimpleSelect f fs n names c l o sl so)
+    (hk : Follow k selectStop) (hs : s.Before (selectText f fs n names c l o sl so ++ k)) :
+    wp (runHandler (fuel + 1) .parseSelectStatement_targetNotRequired) s
+      (fun st s' => st = .select (simpleSelect f fs n names c l o sl so) ∧ RT.Stand s' k) (· = .fuel) := by
+  obtain ⟨hf, hn, hc, hl, ho, hsl, hso⟩ := hok
+  have g7 : Follow (posText .SOFFSET so ++ k) [.AS, .COMMA, .INTO, .FROM, .WHERE, .GROUP, .IDENT, .ORDER, .LIMIT, .OFFSET, .SLIMIT] :=
+    Follow.opt (kwText_pos _ _) (by decide +kernel) rfl (by decide) (hk.mono (by decide))
+  have g6 : Follow (posText .SLIMIT sl ++ (posText .SOFFSET so ++ k))
+      [.AS, .COMMA, .INTO, .FROM, .WHERE, .GROUP, .IDENT, .ORDER, .LIMIT, .OFFSET] :=
+    Follow.opt (kwText_pos _ _) (by decide +kernel) rfl (by decide) (g7.mono (by decide))
+  have g5 : Follow (posText .OFFSET o ++ (posText .SLIMIT sl ++ (posText .SOFFSET so ++ k)))
+      [.AS, .COMMA, .INTO, .FROM, .WHERE, .GROUP, .IDENT, .ORDER, .LIMIT] :=
+    Follow.opt (kwText_pos _ _) (by decide +kernel) rfl (by decide) (g6.mono (by decide))
+  have g4 : Follow (posText .LIMIT l ++ (posText .OFFSET o ++ (posText .SLIMIT sl ++ (posText .SOFFSET so ++ k))))
+      [.AS, .COMMA, .INTO, .FROM, .WHERE, .GROUP, .IDENT, .ORDER] :=
+    Follow.opt (kwText_pos _ _) (by decide +kernel) rfl (by decide) (g5.mono (by decide))
+  have g3 : Follow (whereText c ++ (posText .LIMIT l ++ (posText .OFFSET o ++ (posText .SLIMIT sl ++
+      (posText .SOFFSET so ++ k))))) [.AS, .COMMA, .INTO, .FROM] :=
+    Follow.opt (kwText_where _) (by decide +kernel) rfl (by decide) (g4.mono (by decide))
+  have g2 : Follow (fromText (n :: names) ++ (whereText c ++ (posText .LIMIT l ++ (posText .OFFSET o ++
+      (posText .SLIMIT sl ++ (posText .SOFFSET so ++ k)))))) [.AS, .COMMA, .INTO] :=
+    Follow.opt (kwText_from _) (by decide +kernel) rfl (by decide) (g3.mono (by decide))
+  have hs0 : s.Before (' ' :: (f.print ++ (moreFields fs ++ (fromText (n :: names) ++ (whereText c ++ (posText .LIMIT l ++
+      (posText .OFFSET o ++ (posText .SLIMIT sl ++ (posText .SOFFSET so ++ k))))))))) := by
+    simpa [selectText, List.append_assoc] using hs
+  simp only [runHandler, parseSelect, parseSelectBody]
+  rw [wp_bind, wp_bind]
+  refine wp_mono (parseFields_print fuel s f fs _ hf (g2.mono (by decide)) hs0) ?_ (fun _ h => h)
+  intro flds s1 ⟨hflds, st1⟩
+  subst hflds
+  obtain ⟨s2, h2, st2⟩ := parseTarget_absent s1 _ (g2.mono (by decide)) st1
+  have st2' : RT.Stand s2 ([' '] ++ (Token.FROM.str ++ (' ' :: (qi n ++ (moreNames names ++ (whereText c ++
+      (posText .LIMIT l ++ (posText .OFFSET o ++ (posText .SLIMIT sl ++ (posText .SOFFSET so ++ k)))))))))) := by
+    simpa [fromText, List.append_assoc] using st2
+  obtain ⟨lx3, s3, h3, t3, _, b3⟩ := scanIW_stand s2 [' '] Token.FROM.str _ .FROM [] Gap.blank st2'
+    (scansAs_kw .FROM _ (by decide +kernel) (WordEnd.blank _))
+  have h3' : (expectTok .FROM ["FROM"]).run s2 = .ok ((), s3) := by
+    unfold expectTok
+    rw [P.run_bind _ _ _ _ _ h3]
+    simp [t3, StateT.run, pure, StateT.pure, Except.pure]
+  obtain ⟨s4, h4, st4⟩ := parseSourcesWith_names (some (parseSelect fuel false)) s3 n names _ (fun m hm => (hn m hm).1)
+    (g3.mono (by decide)) b3
+  rw [wp_bind, wp_of_run_ok h2, wp_bind, wp_of_run_ok h3', wp_bind, wp_of_run_ok h4, wp_bind]
+  refine wp_mono (parseCondition_print fuel s4 c _ hc (g4.mono (by decide)) st4) ?_ (fun _ h => h)
+  intro c' s5 ⟨hc', st5⟩
+  subst hc'
+  obtain ⟨s6, h6, st6⟩ := parseDimensions_absent fuel s5 _ (g4.mono (by decide)) st5
+  obtain ⟨s7, h7, st7⟩ := parseFill_absent fuel s6 _ (g4.mono (by decide)) st6
+  obtain ⟨s8, h8, st8⟩ := parseOrderBy_absent s7 _ (g4.mono (by decide)) st7
+  obtain ⟨s9, h9, st9⟩ := parseOptTokInt_print .LIMIT (by decide +kernel) s8 l _ hl.1 hl.2 (g5.mono (by decide)) st8
+  obtain ⟨s10, h10, st10⟩ := parseOptTokInt_print .OFFSET (by decide +kernel) s9 o _ ho.1 ho.2 (g6.mono (by decide)) st9
+  obtain ⟨s11, h11, st11⟩ := parseOptTokInt_print .SLIMIT (by decide +kernel) s10 sl _ hsl.1 hsl.2 (g7.mono (by decide)) st10
+  obtain ⟨s12, h12, st12⟩ := parseOptTokInt_print .SOFFSET (by decide +kernel) s11 so k hso.1 hso.2 (hk.mono (by decide)) st11
+  obtain ⟨s13, h13, st13⟩ := parseLocation_absent fuel s12 k (hk.mono (by decide)) st12
+  rw [wp_bind, wp_of_run_ok h6, wp_bind, wp_of_run_ok h7]
+  simp only []
+  rw [wp_bind, wp_of_run_ok h8, wp_bind, wp_of_run_ok h9, wp_bind, wp_of_run_ok h10, wp_bind, wp_of_run_ok h11,
+    wp_bind, wp_of_run_ok h12, wp_bind, wp_of_run_ok h13, wp_pure, wp_pure]
+  refine ⟨?_, st13⟩
+  have hraw : (!(f :: fs).any fun g => g.expr.hasCall) = true := by
+    rw [Bool.not_eq_true', List.any_eq_false]
+    intro g hg
+    rw [hasCall_false g.expr (hf g hg).1]
+    simp
+  rw [hraw]
+  rfl
+
+/-- Non-vacuity: `SELECT a + 1 AS "x y", b * (c - 2), "select" FROM cpu, "my m" WHERE … LIMIT 10 OFFSET 3 SLIMIT 2`. -/
+def exF1 : Field := ⟨.binary .ADD (.varRef ['a'] .Unknown) (.integer 1), "x y".toList⟩
+def exFs : List Field :=
+  [⟨.binary .MUL (.varRef ['b'] .Unknown) (.paren (.binary .SUB (.varRef ['c'] .Unknown) (.integer 2))), []⟩,
+   ⟨.varRef "select".toList .Unknown, []⟩]
+def exSelectText : Str := selectText exF1 exFs "cpu".toList ["my m".toList] exCond 10 3 2 0
+
+example : exSelectText = (" a + 1 AS \"x y\", b * (c - 2), \"select\" FROM cpu, \"my m\" " ++
+    "WHERE host = 'a' AND (x > -1 OR y =~ /^b/) LIMIT 10 OFFSET 3 SLIMIT 2").toList := by decide +kernel
+
+example : SimpleSelect exF1 exFs "cpu".toList ["my m".toList] exCond 10 3 2 0 := by decide +kernel
+
+-- a field with a comparison is not in the class (the parser rejects it), nor is a call
+example : ¬ FieldOK ⟨.binary .GT (.varRef ['a'] .Unknown) (.integer 1), []⟩ := by decide +kernel
+example : ¬ FieldOK ⟨.call "mean".toList [.varRef ['a'] .Unknown], []⟩ := by decide +kernel
+
+section
+attribute [local irreducible] wp
+example : wp (runHandler 201 .parseSelectStatement_targetNotRequired) (PState.init exSelectText [] [])
+    (fun st s' => st = .select (simpleSelect exF1 exFs "cpu".toList ["my m".toList] exCond 10 3 2 0) ∧
+      RT.Stand s' [eofRune]) (· = .fuel) :=
+  select_print_parse_partial 200 (PState.init exSelectText [] []) exF1 exFs "cpu".toList ["my m".toList] exCond 10 3 2 0
+    [eofRune] (by decide +kernel) (Follow.eof _ (by decide)) (init_before exSelectText (by decide +kernel))
+end
+
+example : (match (runHandler 201 .parseSelectStatement_targetNotRequired).run (PState.init exSelectText [] []) with
+    | .ok _ => true
+    | .error _ => false) = true := by decide +kernel
+
 /-! ## passwords -/
 
 /-- The printed form of `CREATE USER` / `SET PASSWORD` does not depend on the password. -/
